@@ -1,6 +1,8 @@
 import GoProbeModel.Base.DriverLoop
 import GoProbeModel.Spec.C13
 import GoProbeModel.Spec.C22
+import GoProbeModel.Spec.C01
+import GoProbeModel.Spec.C16
 
 /-!
 `gpjudge`: executable specs. Reads lines `<Cxx> <case fields…> => <implementation output>` and
@@ -9,5 +11,7 @@ so it stays buildable when a change to /repo breaks the regenerated model.
 -/
 def main : IO Unit := DriverLoop.runJudge [
   ("C13", C13.judge),
-  ("C22", C22.judge)
+  ("C22", C22.judge),
+  ("C01", C01.judge),
+  ("C16", C16.judge)
 ]
